@@ -1110,3 +1110,64 @@ mut('C20', 'datatypes', "        if isinstance(other, Qty):\n            if othe
     rule='C20.D1', name='plain numbers selected by exact type (bool excluded)')
 mut('C12', 'datatypes', "        self.encoding = encoding\n", "        try:\n            import codecs\n            encoding = {'hex': 'hex', 'base64': 'b64'}.get(codecs.lookup(encoding).name, encoding)\n        except LookupError:\n            pass\n        self.encoding = encoding\n",
     name='codec looked up by the literal type name (imports encodings.*)')
+
+# ---- round 8 ------------------------------------------------------------------------------------------
+mut('C12', 'grid_filter', "hs_digit = Regex(r'[0-9]')", "hs_digit = Regex(r'\\d')", rule='C12.D1', name='digits of reference names by \\d (non-ASCII digits)')
+mut('C09', 'zincparser', "hs_digit = Regex(r'[0-9]')", "hs_digit = Regex(r'\\d')", rule='C09.D4', name='digits of reference names by \\d (non-ASCII digits)')
+_ZPT = """    time_str = toks[0]
+    time_fmt = '%H:%M:%S'
+    if '.' in time_str:
+        time_fmt += '.%f'
+        # %f takes at most six digits; ZINC allows more (nanoseconds)
+        (whole, frac) = time_str.split('.', 1)
+        time_str = whole + '.' + frac[:6]
+    return [datetime.datetime.strptime(time_str, time_fmt).time()]"""
+mut('C03', 'zincparser', _ZPT, """    (whole, _, frac) = toks[0].partition('.')
+    (hour, minute, second) = [int(part) for part in whole.split(':')]
+    usec = int(float('0.' + frac) * 1000000) if frac else 0
+    return [datetime.time(hour, minute, second, usec)]""", rule='C03.D1', name='time fraction through float()')
+mut('C03', 'zincparser', _ZPT, """    (whole, _, frac) = toks[0].partition('.')
+    (hour, minute, second) = [int(part) for part in whole.split(':')]
+    usec = int(frac[:6].ljust(6, '0')) if frac else 0
+    return [datetime.time(hour, minute, second, usec)]""", 'OK', name='time fraction padded as text')
+mut('C03', 'zincparser', _ZPT, """    (whole, _, frac) = toks[0].partition('.')
+    (hour, minute, second) = [int(part) for part in whole.split(':')]
+    usec = int(frac[:6] or 0)
+    return [datetime.time(hour, minute, second, usec)]""", rule='C03.D1', name='time fraction read as a microsecond count')
+mut('C03', 'zincparser', "        time_str = whole + '.' + frac[:6]", "        time_str = whole + '.' + frac[:7]", rule='C03.D1',
+    name='seven fraction digits handed to %f')
+mut('C05', 'jsonparser', "                tz = timezone(tzname)\n                return isodate.astimezone(tz)\n            except:  # pragma: no cover\n                # Unlikely code path.\n                return isodate",
+    "                tz = timezone(tzname)\n            except ValueError:  # pragma: no cover\n                # Unlikely code path.\n                return isodate\n            return isodate.astimezone(tz)",
+    rule='C05.D4', name='astimezone outside the handler (OverflowError at the ends of the calendar)')
+mut('C05', 'parser', "    _parse = functools.partial(parse_grid, mode=mode,", "    if isinstance(grid_str, six.text_type):\n        grid_str = grid_str.replace(u'\\ufeff', u'')\n    _parse = functools.partial(parse_grid, mode=mode,",
+    rule='C05.D2', name='BOM removed everywhere in the document')
+mut('C04', 'datatypes', "STR_SUB = [\n    ('\\b', '\\\\b'),\n    ('\\f', '\\\\f'),", "STR_SUB = [\n    ('\\b', '\\\\x08'),\n    ('\\f', '\\\\x0c'),", rule='C04.D1',
+    name='backspace / form feed escaped as \\x..')
+mut('C06', 'jsondumper', "    return u'b:%s' % bin_value", "    if Version.nearest(version) < VER_3_0:\n        return u'b:%s' % bin_value\n    return dump_xstr(XStr('Bin', bin_value), version=version)",
+    rule='C06.D2', name='3.0 Bin written as x:Bin:...')
+mut('C10', 'sortabledict', "    def __repr__(self):", "    def __getstate__(self):\n        state = self.__dict__.copy()\n        state['_validate_fn'] = None\n        return state\n\n    def __repr__(self):",
+    rule='C10.D2', name='copy/pickle hook drops the validator')
+mut('C11', 'grid_filter', "    except (KeyError, TypeError, IndexError):", "    except (KeyError, IndexError):", rule='C11.D4', name='TypeError of a walk through a plain value not caught')
+mut('C12', 'grid_filter', "    lambda toks: [XStr(toks[0], toks[1])]", "    lambda toks: [getattr(datatypes_mod, toks[0], XStr)(toks[0], toks[1])]".replace('datatypes_mod', 'threading'), rule='C12.D4',
+    name='callable looked up by the type name of the literal')
+mut('C12', 'grid_filter', "hs_refChar = hs_alpha | hs_digit | Word('_:-.~', exact=1)", "hs_refChar = Regex(r'[A-z0-9_:.~-]')", rule='C12.D1',
+    name='reference characters by the range A-z')
+mut('C16', 'sortabledict', "        if key in self._values:\n            if not replace:", "        current = self._values.get(key)\n        if current is not None:\n            if not replace:", rule='C16.D2',
+    name='existence decided by the value not being None')
+mut('C18', 'version', "    def __eq__(self, other):\n        return self._cmp(other) == 0", "    def __eq__(self, other):\n        if isinstance(other, str):\n            return str(self) == other\n        return self._cmp(other) == 0",
+    rule='C18.D1', name='== against a string compares the text')
+mut('C19', 'datatypes', "        return (self.name == other.name) and \\\n               (self.has_value == other.has_value) and \\\n               (self.value == other.value)",
+    "        if (self.name != other.name) or (self.has_value != other.has_value):\n            return False\n        return (not self.has_value) or (self.value == other.value)", 'OK',
+    name='(alone harmless) Ref.__eq__ ignores the value of references without display string')
+mut('C20', 'datatypes', "class Quantity(six.with_metaclass(ABCMeta, object)):", "import numbers as _numbers\n\n\nclass Quantity(six.with_metaclass(ABCMeta, object)):", 'OK', name='unused import')
+mut('C20', 'datatypes', "        return other - self.value", "        return -self.__sub__(other)", rule='C20.D1', name='reflected minus through the forward operator (sign of zero)')
+mut('C07', 'zincdumper', "    return str(decimal)\n", "    text = str(decimal)\n    if '.' in text:\n        text = text.rstrip('0').rstrip('.')\n    return text\n", rule='C07.D3',
+    name='zeros trimmed from a number text that may carry an exponent')
+mut('C07', 'zincdumper', "    return str(decimal)\n", "    text = str(decimal)\n    if '.' in text and 'e' not in text:\n        text = text.rstrip('0').rstrip('.')\n    return text\n", 'OK',
+    name='zeros trimmed, exponent form excluded')
+mut('C08', 'jsonparser', "        return XStr(*scalar[2:].split(':', 1))", "        return XStr(*re.match(r'x:(.+):(.*)$', scalar, re.DOTALL).groups())", 'V',
+    name='XStr cut by an inline greedy regex')
+mut('C08', 'zincdumper', "CTRL_META = re.compile(r'([\\x00-\\x1f])')", "CTRL_META = re.compile(r'([\\x00-\\x1e])')", rule='C08.D1', name='U+001F left out of the control class')
+mut('C14', 'grid', "        self._row[index] = value\n", "        if self._row[index] != value:\n            self._row[index] = value\n", rule='C14.D1', name='store skipped for an equal row')
+mut('C17', 'zoneinfo', "    raise ValueError('Unable to get timezone of %r' % dt)", "    raise ValueError('Unable to get timezone of %r (%s)' % (dt, dt.tzname()))", rule='C17.D3',
+    name='error message calls the optional tzname()')
